@@ -251,12 +251,12 @@ pub fn exec(tag: i64, inp: &[i64]) -> Vec<i64> {
                     let mut h2 = Fnv(0xcbf29ce484222325);
                     x.hash(&mut h1);
                     y.hash(&mut h2);
-                    vec![(x < y) as i64, (x == y) as i64, (x <= y) as i64, (x > y) as i64,
-                         match x.cmp(&y) { Less => 0, Equal => 1, Greater => 2 },
-                         (h1.finish() == h2.finish()) as i64]
+                    [(x < y) as i64, (x == y) as i64, (x <= y) as i64, (x > y) as i64,
+                     match x.cmp(&y) { Less => 0, Equal => 1, Greater => 2 },
+                     (h1.finish() == h2.finish()) as i64]
                 }) {
                     None => vec![PANIC],
-                    Some(o) => o,
+                    Some(o) => o.to_vec(),
                 }
             })
         }
